@@ -252,7 +252,7 @@ def run(rep: Report, tier: str) -> None:
         rep.extra.setdefault("l2_refuted_deviations", []).append({"legacy": leg, "violated": r.violated_invariant})
     traces: List[List[Dict[str, Any]]] = []
     meta: List[Dict[str, Any]] = []
-    fam = [MLP, ResBlock] if quick else FAMILY
+    fam = [MLP, UBlock] if quick else FAMILY
     for ci, cls in enumerate(fam):
         hs = histories(rng, quick, with_compile=not quick and ci == 0)
         if quick:
